@@ -309,6 +309,33 @@ def singleTargetPick (found : Bool) (node : Nat) (shard : Option Nat) : Option R
   if found then some (node, shard) else none
 def singleTargetFallback : List RawTarget := []
 
+/-- Executable form of `Props.C13.rawSame`: two entries a policy yields are the same target. -/
+def rawSameB (sharded : Nat → Bool) (a b : RawTarget) : Bool :=
+  a.1 == b.1 && (!sharded a.1 || a.2.isNone || b.2.isNone || a.2 == b.2)
+
+def pairwiseB {β : Type} (r : β → β → Bool) : List β → Bool
+  | [] => true
+  | x :: xs => xs.all (fun y => r x y) && pairwiseB r xs
+
+/-- A policy's first choice: the picked entry, or (`pick = None`) the first fallback entry. -/
+def policyHead (pick : Option RawTarget) (fallback : List RawTarget) : Option RawTarget :=
+  match pick with
+  | some p => some p
+  | none => fallback.head?
+
+/-- The fallback entries after the first choice, without the exact copies of it (which `Plan` skips). -/
+def policyKept (pick : Option RawTarget) (fallback : List RawTarget) : List RawTarget :=
+  (match pick with
+   | some _ => fallback
+   | none => fallback.tail).filter (fun t => some t != policyHead pick fallback)
+
+/-- Executable form of `Props.C13.PolicyDistinct` (proved equivalent: `policyDistinctB_iff`). -/
+def policyDistinctB (sharded : Nat → Bool) (pick : Option RawTarget) (fallback : List RawTarget) : Bool :=
+  pairwiseB (fun a b => !rawSameB sharded a b) (policyKept pick fallback) &&
+  (match policyHead pick fallback with
+   | none => true
+   | some h => (policyKept pick fallback).all (fun f => !rawSameB sharded h f))
+
 /-! ### the plan of a page fetch (`pager.rs:337-365`) -/
 
 /-- A target as `load_balancing::Plan` yields it: `(node, shard)`. -/
